@@ -9,6 +9,8 @@ import OVM.Tet.LabelsCell
 import OVM.Tet.CollapseQuads
 import OVM.Tet.TetConstruct
 import OVM.Tet.TetChecked
+import OVM.Tet.TetCellV
+import OVM.Tet.CollapseGInv
 /-
   C15 — tetrahedral kernel: shape invariants, vertex-order contracts, label tables, edge collapse.
 
@@ -21,18 +23,21 @@ import OVM.Tet.TetChecked
       (`fixHalfList`) only ever see a slot that no stored definition mentions: K4's closure lemmas
       (OVM/Refine/CacheImmediate.lean, CacheGC.lean), threaded through in OVM/Tet/ShapeAll.lean.  Refused calls of
       the three overrides return the very state they were given.
-      Gap (explicit hypothesis in `TetOpOK`): for `collapse_edge` / `split_edge` / `split_face` the step theorem
-      assumes that the state just before the operation switches back to the caller's deletion mode satisfies
-      `GInv` (for `collapse_edge` this is what the link condition is for; not proved; discharged on concrete
-      instances in OVM/Tet/ShapeRun.lean).  In deferred or fast mode no hypothesis at all is needed
-      (`shape_deletions_deferred_or_fast`).
+      `collapse_edge`: `TetOpOK (.collapse h)` (the state just before the operation switches back to the caller's
+      deletion mode satisfies `GInv`) is a THEOREM for every edge satisfying the link condition, in a mesh of closed
+      triangles with all caches (`collapse_keeps_invariant`, `shape_step_collapse`; OVM/Tet/CollapseGInv.lean: the new
+      halffaces are live, pairwise different and FREE — the topological content of the link condition).
+      Gap (explicit hypothesis in `TetOpOK`) only for the protected `split_edge` / `split_face` (not part of C15's
+      statement; discharged on concrete instances in OVM/Tet/ShapeRun.lean).  In deferred or fast mode no hypothesis
+      at all is needed (`shape_deletions_deferred_or_fast`).
       Four distinct vertices: a cell that satisfies `IsTet` has exactly four vertices (`tetShape_of_isTet`).  WHICH
       construction paths give `IsTet`: `add_cell(v0,v1,v2,v3)` on four different live vertices in a mesh whose
       stored faces are closed triangles (`addCell4_isTet`, and every stored tetrahedron stays one: `addCell4_allTet`).
       `add_cell(halffaces)` since 64c6d58 (finding /verif/findings/C15-pillow-cell.md, fixed): an ACCEPTED call on loop
-      faces stores four distinct vertices, any `topologyCheck` (`addCellHF_fourVerts`); with topology check and no
-      parallel halfedges the cell is `IsTet` (`addCellHF_checked_isTet`); both hypotheses are needed
-      (`addCellHF_hypotheses_needed`); the former double pillow is rejected (`pillow_cell_rejected`).  Along whole
+      faces stores four distinct vertices, any `topologyCheck` (`addCellHF_fourVerts`; loops needed:
+      `addCellHF_loops_needed`); with topology check the cell is `IsTet` (`addCellHF_checked_isTet`; since 4614b67, finding
+      /verif/findings/C15-parallel-edge-tet.md, no further hypothesis); the former double pillow and the parallel-edge
+      configuration are rejected (`pillow_cell_rejected`, `parallel_edge_cell_rejected`).  Along whole
       construction histories through both paths: `tetShape_of_construction`.
   (b) for `IsTet k c` (and the halfface→cell cache agreeing on `c`): all four `get_cell_vertices`
       overloads, `halfface_opposite_vertex` / `vertex_opposite_halfface` mutually inverse, `tv_iter`.
@@ -125,6 +130,19 @@ theorem shape_step (k : Kernel) (op : TetOp) (hi : TInv k) (hok : TetOpOK k op) 
 theorem shape_run (ops : List TetOp) (k : Kernel) (hi : TInv k) (h : AdmissibleAll k ops) : TInv (runTetX k ops) :=
   tinv_run ops k hi h
 
+/-- **`collapse_edge(a → b)` on an edge satisfying the link condition keeps the global kernel invariant in every
+    deletion mode** (mesh of closed triangles, all three caches): K5's precondition of every `add_cell` of the
+    re-creation loop holds — the new halffaces are live, pairwise different and in no live cell.  This removes the
+    gap hypothesis of `TetOpOK (.collapse h)`. -/
+theorem collapse_keeps_invariant (k : Kernel) (h : Nat) (hi : Global.GInv k) (hl : FaceLoops k) (hb : k.fullBU = true)
+    (hlc : k.linkCondition h = true) : Global.GInv (k.collapseEdge h).1 ∧ TetOpOK k (.collapse h) :=
+  ⟨ginv_collapseEdge hi hl hb hlc, tetOpOK_collapse hi hl hb hlc⟩
+
+/-- … hence the step theorem for `collapse_edge` with valid arguments only, every deletion mode -/
+theorem shape_step_collapse (k : Kernel) (h : Nat) (hi : TInv k) (hl : FaceLoops k) (hb : k.fullBU = true)
+    (hlc : k.linkCondition h = true) : TInv (k.stepTetX (.collapse h)).1 :=
+  tinv_stepTetX k (.collapse h) hi (tetOpOK_collapse hi.ginv hl hb hlc)
+
 /-- … in particular every state reachable from the empty mesh -/
 theorem shape_reachable (ops : List TetOp) (h : AdmissibleAll {} ops) :
     ValenceShape (runTetX {} ops) ∧ Global.GInv (runTetX {} ops) :=
@@ -155,11 +173,28 @@ theorem addCell4_allTet (k : Kernel) (h : BInv k) (ht : AllTet k) (v0 v1 v2 v3 :
     AllTet (k.tetAddCell4 v0 v1 v2 v3 chk).1 :=
   tetAddCell4_allTet h ht o0 o1 o2 o3 hd chk
 
+/-- **`add_cell(std::vector<VertexHandle>)` builds a tetrahedron** as well: four different live vertices, mesh of closed
+    triangles with the vertex and edge caches; the cell that comes back (if any) is `IsTet` on exactly these vertices,
+    first halfface `(v0,v1,v2)` up to rotation; every stored tetrahedron stays one; with K5's precondition of the final
+    `add_cell` (`CellVFree`) the construction invariant is kept.  (Four DIFFERENT vertices are needed: an unchecked
+    `add_cell({v,v,w,x})` stores a degenerate cell — witness in OVM/Tet/TetCellV.lean.) -/
+theorem addCellV_isTet (k : Kernel) (h : BInv k) (v0 v1 v2 v3 : Nat) (o0 : Global.VOk k v0) (o1 : Global.VOk k v1)
+    (o2 : Global.VOk k v2) (o3 : Global.VOk k v3) (hd : [v0, v1, v2, v3].Nodup) (chk : Bool) (c : Nat)
+    (hc : (k.tetAddCellV [v0, v1, v2, v3] chk).2 = some c) :
+    c = k.nC ∧ IsTet (k.tetAddCellV [v0, v1, v2, v3] chk).1 c ∧
+    (∀ x, x ∈ (k.tetAddCellV [v0, v1, v2, v3] chk).1.cellVertSet c ↔ x ∈ [v0, v1, v2, v3]) ∧
+    Rot ((k.tetAddCellV [v0, v1, v2, v3] chk).1.hfVerts (((k.tetAddCellV [v0, v1, v2, v3] chk).1.cellAt c).headD 0))
+      [v0, v1, v2] :=
+  tetAddCellV_isTet h o0 o1 o2 o3 hd chk hc
+
+theorem addCellV_keeps_construction_invariant (k : Kernel) (h : CInv k) (vs : List Nat) (hv : ∀ v ∈ vs, Global.VOk k v)
+    (hd : vs.Nodup) (chk : Bool) (hf : CellVFree k vs chk) : CInv (k.tetAddCellV vs chk).1 :=
+  tetAddCellV_cinv h hv hd chk hf
+
 /-- **construction histories**: any sequence of `add_vertex`, `add_n_vertices`, `add_halfface(a,b,c)`,
     `add_cell(v0,v1,v2,v3)` (with or without topology check, accepted or refused) and topology-CHECKED
     `add_cell(halffaces)` (accepted or refused) on valid arguments — different live vertices; the halffaces of an
-    accepted cell live, free and pairwise different (`Cell4Free` / K5's `OpOK`), without parallel halfedges for
-    `add_cell(halffaces)` — from the empty mesh gives a tetrahedral mesh: every face three halfedges, every cell four
+    accepted cell live, free and pairwise different (`Cell4Free` / K5's `OpOK`) — from the empty mesh gives a tetrahedral mesh: every face three halfedges, every cell four
     halffaces and FOUR DISTINCT VERTICES (`TetShape`), every stored cell `IsTet` -/
 theorem tetShape_of_construction (ops : List BuildOp) (h : BuildAdmissible {} ops) :
     ValenceShape (runBuild {} ops) ∧ TetShape (runBuild {} ops) ∧ AllTet (runBuild {} ops) :=
@@ -189,19 +224,21 @@ theorem addCellHF_fourVerts (k : Kernel) (hfs : List Nat) (chk : Bool) (c : Nat)
   tetAddCell_fourVerts h hl
 
 /-- … **and with topology check it is a tetrahedron** (`IsTet`: the four halffaces are, one to one, the four oriented
-    triangles of a tetrahedron), provided no two different halfedges of the four halffaces run between the same ordered
-    vertex pair (`NoParallel`: no duplicate edge inside the cell).  Four triangles on four vertices whose twelve
-    halfedges are pairwise different and matched by their opposites ARE the boundary of a tetrahedron (`fin_tet`:
-    decided over `Fin 4`). -/
+    triangles of a tetrahedron).  Four triangles on four vertices whose twelve halfedges run through twelve different
+    ordered vertex pairs (4614b67) and are matched by their opposites ARE the boundary of a tetrahedron (`fin_tet`:
+    decided over `Fin 4`).  With this "four distinct vertices" is an invariant of every topology-checked construction
+    call of the public tet API. -/
 theorem addCellHF_checked_isTet (k : Kernel) (hfs : List Nat) (c : Nat) (h : (k.tetAddCell hfs true).2 = some c)
-    (hl : ∀ hf ∈ hfs, Loop3 k (k.hfHes hf)) (hnp : NoParallel k hfs) : IsTet (k.tetAddCell hfs true).1 c :=
-  tetAddCell_checked_isTet h hl hnp
+    (hl : ∀ hf ∈ hfs, Loop3 k (k.hfHes hf)) : IsTet (k.tetAddCell hfs true).1 c :=
+  tetAddCell_checked_isTet h hl
 
-/-- four faces that are NOT loops (only creatable by an unchecked `add_face(halfedges)`): start vertices 0,1,2, one end vertex 3 -/
+/-- four faces that are NOT loops (only creatable by an unchecked `add_face(halfedges)`; three of the edges join a vertex
+    to itself): twelve halfedges on twelve different ordered vertex pairs, all starting in 0, 1 or 2 -/
 def unloopFaces : Kernel :=
   let k0 := ({} : Kernel).addNVertices 4
-  let k1 := [(0, 1), (1, 2), (2, 0), (0, 3)].foldl (fun k (e : Nat × Nat) => (k.addEdge e.1 e.2 true).1) k0
-  [[0, 2, 4], [6, 0, 2], [0, 2, 6], [2, 6, 0]].foldl (fun k f => (k.tetAddFace f false).1) k1
+  let k1 := [(0, 1), (0, 2), (1, 2), (0, 3), (1, 3), (2, 3), (0, 0), (1, 1), (2, 2)].foldl
+    (fun k (e : Nat × Nat) => (k.addEdge e.1 e.2 true).1) k0
+  [[0, 1, 2], [3, 4, 5], [6, 8, 10], [12, 14, 16]].foldl (fun k f => (k.tetAddFace f false).1) k1
 
 /-- two triangle pairs on (0,1,2) and (0,1,3) through a DUPLICATE edge 0–1 (`add_edge(…, allow_duplicates = true)`) -/
 def dupPillow : Kernel :=
@@ -209,18 +246,22 @@ def dupPillow : Kernel :=
   let k1 := [(0, 1), (1, 2), (2, 0), (0, 1), (1, 3), (3, 0)].foldl (fun k (e : Nat × Nat) => (k.addEdge e.1 e.2 true).1) k0
   ((k1.tetAddFace [0, 2, 4] true).1.tetAddFace [6, 8, 10] true).1
 
-/-- WITNESSES that the two hypotheses cannot be dropped.  (1) Without closed loops the vertex count of 64c6d58 (both end
-    points of every halfedge: 4) and the vertices of the stored cell (start points: 3) differ — an unchecked call on
-    non-loop faces is accepted with THREE vertices.  (2) With a duplicate edge the topology-checked call accepts two
-    triangle pairs on four vertices: loops, closed surface, four vertices, not a tetrahedron, `get_cell_vertices` is
-    empty (the real `tet_vertices` still crashes on this input after 64c6d58: residual note in the finding file). -/
-theorem addCellHF_hypotheses_needed :
-    ((unloopFaces.tetAddCell [0, 2, 4, 6] false).2 = some 0 ∧ unloopFaces.spanVertCount [0, 2, 4, 6] = 4 ∧
-      (unloopFaces.tetAddCell [0, 2, 4, 6] false).1.cellVertSet 0 = [0, 1, 2]) ∧
-    ((dupPillow.tetAddCell [0, 1, 2, 3] true).2 = some 0 ∧ FaceLoops dupPillow ∧ ClosedSurface dupPillow [0, 1, 2, 3] ∧
-      ¬ NoParallel dupPillow [0, 1, 2, 3] ∧ (dupPillow.tetAddCell [0, 1, 2, 3] true).1.cellVertSet 0 = [0, 1, 2, 3] ∧
-      ¬ IsTet (dupPillow.tetAddCell [0, 1, 2, 3] true).1 0 ∧
-      (dupPillow.tetAddCell [0, 1, 2, 3] true).1.getCellVertices 0 = []) := by decide +kernel
+/-- WITNESS that the loop hypothesis cannot be dropped: without closed loops the vertex count of 64c6d58 (both end points
+    of every halfedge: 4) and the vertices of the stored cell (start points: 3) differ — an unchecked call on non-loop
+    faces is accepted with THREE vertices (contrived: it needs unchecked faces and edges from a vertex to itself). -/
+theorem addCellHF_loops_needed :
+    (unloopFaces.tetAddCell [0, 2, 4, 6] false).2 = some 0 ∧ unloopFaces.spanVertCount [0, 2, 4, 6] = 4 ∧
+    unloopFaces.noParallel [0, 2, 4, 6] = true ∧
+    (unloopFaces.tetAddCell [0, 2, 4, 6] false).1.cellVertSet 0 = [0, 1, 2] := by decide +kernel
+
+/-- the configuration of finding /verif/findings/C15-parallel-edge-tet.md (two triangle pairs on four vertices through a
+    duplicate edge: closed loops, a closed surface, four vertices — accepted with topology check before 4614b67, and the
+    real `tet_vertices` crashed) is now REJECTED with and without topology check: two of its halfedges run 0 → 1 -/
+theorem parallel_edge_cell_rejected :
+    FaceLoops dupPillow ∧ ClosedSurface dupPillow [0, 1, 2, 3] ∧ dupPillow.spanVertCount [0, 1, 2, 3] = 4 ∧
+    dupPillow.noParallel [0, 1, 2, 3] = false ∧
+    dupPillow.tetAddCell [0, 1, 2, 3] true = (dupPillow, none) ∧ dupPillow.tetAddCell [0, 1, 2, 3] false = (dupPillow, none) := by
+  decide +kernel
 
 /-! ## (b) vertex-order contracts on a cell with `IsTet` -/
 
